@@ -112,6 +112,15 @@ Definition site_eqb (a b : string * list string) : bool :=
   String.eqb (fst a) (fst b) && list_eqb String.eqb (snd a) (snd b).
 Definition fx_sites_now : bool := list_eqb site_eqb GenFlags.ignore_site_calls sites_table.
 
+(* fx_live: clearLspServer - run by every settings change that takes effect - publishes the empty list for the files of
+   fileErrorMap AND for the files of fileChangeErrorMap (the unsaved buffers whose syntax errors are on display) before
+   it empties the maps; any other sequence of statements (in particular the one before the repair, without the second
+   loop) counts as not repaired *)
+Definition settings_clear_table : list string :=
+  ["clear:fileErrorMap"; "clear:fileChangeErrorMap"; "reset:fileErrorMap"; "reset:fileChangeErrorMap";
+   "reset:fileChangeCleanMap"]%string.
+Definition fx_live_now : bool := list_eqb String.eqb GenFlags.settings_clear_steps settings_clear_table.
+
 (* evaluated here (the tables are regenerated on every run), so that the extracted constant is a record of five
    booleans and one list of type numbers (no Coq string reaches the extraction) *)
 Definition fixes_now : fixes :=
@@ -119,11 +128,12 @@ Definition fixes_now : fixes :=
     {| fx_regexp := fx_regexp_now; fx_gate := fx_gate_now; fx_coupled := fx_coupled_now;
        fx_dead := GenFlags.client_opens_types;      (* handleNotJSONCheckFlag writes OpenErrorTypeMap[i] = true *)
        fx_dup := GenFlags.file_rules_merged;        (* ReadConfig reads IgnoreFileErrTypesMap[name] before assigning *)
-       fx_sites := fx_sites_now |}.
+       fx_sites := fx_sites_now; fx_live := fx_live_now |}.
 
 Lemma tie_fixes_now :
   fixes_now = {| fx_regexp := fx_regexp_now; fx_gate := fx_gate_now; fx_coupled := fx_coupled_now;
-                 fx_dead := GenFlags.client_opens_types; fx_dup := GenFlags.file_rules_merged; fx_sites := fx_sites_now |}.
+                 fx_dead := GenFlags.client_opens_types; fx_dup := GenFlags.file_rules_merged; fx_sites := fx_sites_now;
+                 fx_live := fx_live_now |}.
 Proof. vm_compute. reflexivity. Qed.
 
 (* the gate list of the model variant IS the list in the code (every element an error type constant) *)
